@@ -451,8 +451,14 @@ func ruleDispatchTables(c *eng.Ctx) {
 	if fn := p.Func("reader.(*Reader).GetObject"); fn == nil {
 		c.Undec(R, "reader.(*Reader).GetObject", token.NoPos, "anchor not found")
 	} else {
-		a := callsAnchor(c.P, fn, "reader.(*Reader).getCompressedObject")
-		b := callsAnchor(c.P, fn, "reader.(*Reader).getUncompressedObject")
+		a, b := false, false
+		for _, h := range eng.Cluster(fn, 1) { // the dispatch may sit in a stage function of GetObject
+			if h.Pkg != fn.Pkg {
+				continue
+			}
+			a = a || callsAnchor(c.P, h, "reader.(*Reader).getCompressedObject")
+			b = b || callsAnchor(c.P, h, "reader.(*Reader).getUncompressedObject")
+		}
 		c.Check(a && b, R, "reader.(*Reader).GetObject#entry-kinds", fn.Pos(), "plain and object-stream entries are both loaded", "one of the two in-use entry kinds is no longer loaded by GetObject")
 	}
 	// content streams: single stream and array
